@@ -139,7 +139,7 @@ func TestC32(t *testing.T) {
 		"one row, adjacent rows, far rows); the memory view is reached through the real UI (entrypoint, emulate, memory "+
 		"<key>) and rendered; rows are parsed back. Oracle from the byte model: data rows = exactly the 16-byte aligned "+
 		"windows containing a stored byte, ascending, each once; every cell shows the stored byte (%02X) or the absent "+
-		"mark; an ellipsis row sits between two data rows iff their windows are not consecutive; then `address a` for "+
+		"mark; an ellipsis row sits between two data rows iff their windows are not consecutive; then `address a` (a third of the time after a goto to an arbitrary row, ellipsis rows included) for "+
 		"stored, absent-in-window and unmapped addresses must select the containing row or report an error leaving the "+
 		"cursor unchanged. non-trivial = >=2 blocks sharing a row or >=3 data rows with a gap; distinct by memory description")
 	defer col.Flush()
